@@ -1,9 +1,11 @@
 import Driver.Env
+import Driver.Match
 open Sfw
 
 def dispatch (suite : String) : Option (List String → String) :=
   match suite with
   | "env" => some Driver.envStep
+  | "match" => some Driver.matchStep
   | _ => none
 
 partial def loop (h : IO.FS.Stream) (out : IO.FS.Stream) (f : List String → String) : IO Unit := do
